@@ -35,8 +35,21 @@ type Ctx struct {
 }
 
 func NewCtx(tier string) *Ctx {
-	return &Ctx{Tier: tier, progs: map[string]*load.Program{}, eff: map[string]*effects.Analysis{}, grd: map[string]*guards.Engine{},
+	c := &Ctx{Tier: tier, progs: map[string]*load.Program{}, eff: map[string]*effects.Analysis{}, grd: map[string]*guards.Engine{},
 		tnt: map[string]*taint.Engine{}, Set: &report.Set{}, Extra: map[string]interface{}{}}
+	absint.PlainGlobalHook = func(p *load.Program, g *ssa.Global) (absint.Val, bool) {
+		m := c.concreteGlobals(p.Config.Name)
+		if m == nil {
+			return nil, false
+		}
+		key := g.Name()
+		if g.Pkg == p.Field {
+			key = "field." + key
+		}
+		v, ok := m[key]
+		return v, ok && v != nil
+	}
+	return c
 }
 
 // Configs analysed per tier.
